@@ -6,7 +6,7 @@
 import TvNetTable.Proofs.TableLemmas
 import TvNetTable.Proofs.Egress
 import TvNetTable.Proofs.Reach
-import TvNetTable.Proofs.LiveOps5
+import TvNetTable.Proofs.LiveReach
 
 namespace TV
 namespace C17
@@ -443,14 +443,9 @@ theorem C17_fixed_listener (k : Kernel) (owned : List Fd) (h : Live k owned) (ip
     Live (Kernel.netRun (k'.listen fd) evs) (fd :: owned) :=
   Kernel.live_netRun _ _ evs (Kernel.live_tlisten k owned ip port k' fd hb h)
 
-/-- `C17_fixed` for all histories is not reached: **`C17_fixed_partial`** = the conjunction of what
-    is proved about the repaired model for every state and every history of the kinds covered.
-    Covered: the empty table is live; `bind` (UDP and TCP, explicit port and port 0),
-    `TcpListener::bind`, UDP connect / send / receive, delivery of any packet and `egress`
-    preserve `Live`.  Missing: the application calls `connect` (first poll), `accept` and `close`
-    (reap, linger, close-listener) are not yet shown to preserve `Live`; close-listener needs one
-    more invariant (accept-queue entries are fds below the counter of sockets that do not
-    listen), see NOTES. -/
+/-- Per-operation form (kept from the first round; superseded by `C17_fixed` below, which
+    also covers `connect`, `accept` and `close`): from any live state each of these preserves
+    `Live`. -/
 theorem C17_fixed_partial (k : Kernel) (owned : List Fd) (h : Live k owned) :
     (∀ evs, Live (Kernel.netRun k evs) owned) ∧
     (∀ ip port tcp k' fd, k.bind ip port tcp = .ok (k', fd) → Live k' (fd :: owned)) ∧
@@ -464,6 +459,48 @@ theorem C17_fixed_partial (k : Kernel) (owned : List Fd) (h : Live k owned) :
    fun fd peer k' hk => Kernel.live_udpConnect k owned fd peer k' hk h,
    fun fd dst tag k' hk => Kernel.live_udpSendTo k owned fd dst tag k' hk h,
    fun fd k' e tag hk => Kernel.live_recvFrom k owned fd k' e tag hk h⟩
+
+/-- **`C17_fixed` — all histories of application calls and network events (repaired model).**
+    Start from an empty repaired kernel (any addresses, any other flags) and apply any list of
+    operations: `UdpSocket::bind` / `TcpListener::bind` (any address, explicit port or port 0),
+    UDP connect / send / receive, `TcpStream::connect` (first poll with its implicit bind, or its
+    immediate failure), `accept`, `close` of any held socket (plain reap, lingering close,
+    close-listener with its sweep of unaccepted children), delivery of *any* packet, `egress`.
+    Calls on fds the application does not hold are impossible through the shim and are no-ops.
+    In the state reached:
+    * `Live`: every socket of the table is held by an application handle, or lingering after its
+      application closed it, or an unaccepted child of a live listener (and the binding index,
+      the connection index and the accept queues are consistent);
+    * hence a `bind` refused with `AddrInUse` is refused because of such a live socket bound to a
+      conflicting key — never because of a leftover like the aborted child of F-C17-1. -/
+theorem C17_fixed (k0 : Kernel) (h0 : k0.tbl = {}) (hfix : k0.fixReap = true) (ops : List KOp) :
+    Live (KState.run ⟨k0, []⟩ ops).k (KState.run ⟨k0, []⟩ ops).owned ∧
+    ∀ (ip : Ip) (port : Nat) (tcp : Bool), port ≠ 0 →
+      (ip.isUnspec = true ∨ (KState.run ⟨k0, []⟩ ops).k.isLocal ip = true) →
+      (KState.run ⟨k0, []⟩ ops).k.bind ip port tcp = .error .addrInUse →
+      ∃ s ∈ (KState.run ⟨k0, []⟩ ops).k.tbl.socks, ∃ b, s.bound = some b ∧
+        Spec.conflicts b ⟨ip.v6, tcp, ip, port⟩ = true ∧
+        LiveSock (KState.run ⟨k0, []⟩ ops).k.tbl (KState.run ⟨k0, []⟩ ops).owned s := by
+  have hl := live_run ⟨k0, []⟩ ops (Kernel.live_empty k0 h0 hfix)
+  exact ⟨hl, fun ip port tcp hp hloc herr => C17_fixed_conflict_live _ _ hl ip port tcp hp hloc herr⟩
+
+/-- the same from any live state (e.g. in the middle of a run) -/
+theorem C17_fixed_from (st : KState) (h : Live st.k st.owned) (ops : List KOp) :
+    Live (st.run ops).k (st.run ops).owned :=
+  live_run st ops h
+
+/-- non-vacuity of `C17_fixed`: the F-C17-1 history and more, on the repaired model -/
+example : Live (KState.run ⟨{ addrs := [⟨false, 10⟩], fixReap := true }, []⟩
+    [.tlisten ⟨false, 10⟩ 80,
+     .deliver ⟨⟨⟨false, 20⟩, 41001⟩, ⟨⟨false, 10⟩, 80⟩, .tcp true false false false⟩,
+     .deliver ⟨⟨⟨false, 20⟩, 41001⟩, ⟨⟨false, 10⟩, 80⟩, .tcp false false false true⟩,
+     .connect ⟨⟨false, 10⟩, 80⟩, .egress, .accept 1, .close 1, .egress, .tlisten ⟨false, 10⟩ 80]).k
+    (KState.run ⟨{ addrs := [⟨false, 10⟩], fixReap := true }, []⟩
+    [.tlisten ⟨false, 10⟩ 80,
+     .deliver ⟨⟨⟨false, 20⟩, 41001⟩, ⟨⟨false, 10⟩, 80⟩, .tcp true false false false⟩,
+     .deliver ⟨⟨⟨false, 20⟩, 41001⟩, ⟨⟨false, 10⟩, 80⟩, .tcp false false false true⟩,
+     .connect ⟨⟨false, 10⟩, 80⟩, .egress, .accept 1, .close 1, .egress, .tlisten ⟨false, 10⟩ 80]).owned :=
+  (C17_fixed _ rfl rfl _).1
 
 /-- non-vacuity: a fresh repaired kernel is live, and so is it after `TcpListener::bind`, a SYN,
     the RST that kills the half-open child, and an egress pass -/
